@@ -46,9 +46,15 @@ def run(rep, progs, tier):
             subsystem_rules(rep, prog, cfg)
         with rep.importing("C03.grammar", "C04.names.field"):
             verbatim_rule(rep, prog, cfg)
+        # "however the replies are segmented into reads": the part of an idle reply that was read but not yet parsed lives in the
+        # connection's receive buffer — who may write or empty that buffer is C02's rule, decided here for C04's clause
+        from .C02 import persist_rule
+        with rep.importing("C02.persist", "C04.segmentation.persist"):
+            persist_rule(rep, prog, cfg)
 
 
 def one(rep, prog, cfg):
+    rep.rule("C04.segmentation.persist", "the receive buffer is written / emptied only by connect and receive (C02's rule): a half-read idle reply survives a request")
     res = analyse(prog)
     if res is None:
         rep.fail("C04.anchor", cfg, "client/connection.rs", "connection loop not found")
